@@ -157,7 +157,7 @@ class _R:
         name = None
         if anchor_flag:
             self.count += 1
-            name = "a%d" % self.count
+            name = ["a%d", "A-%d", "z_%d", "Z9-%d_"][self.count % 4] % self.count      # every character class an anchor name may use
             parts.append("&" + name)
             self.feat.add("anchor")
         src, tag = self.resolve_tag(spec)
